@@ -227,9 +227,27 @@ def mon_C01(case, obs):
     return out
 
 
+def job_params(case, obs):
+    """(soft, hard, lost timeout) of each job, recomputed from the submission events"""
+    cfg = case['cfg']
+    out = []
+    for e, o in zip(case['events'], obs):
+        if e[0] in ('apply', 'map', 'imap', 'imapu') and o['ret'] is None and not o['exc']:
+            if e[0] == 'apply':
+                a = list(e[1:]) + [None] * 4
+                out.append((a[0] or cfg.get('soft'), a[1] or cfg.get('hard'), a[2] or cfg.get('lost') or 10))
+            elif e[0] == 'map':
+                out.append((None, None, 10))
+            else:
+                out.append((None, None, cfg.get('lost') or 10))
+    return out
+
+
 def mon_C04(case, obs):
     out = []
     marker = {}
+    params = job_params(case, obs)
+    was_ready = set()
     exits = {}             # pid ref -> status given by the history
     for n, (e, o) in enumerate(zip(case['events'], obs)):
         if e[0] == 'exit':
@@ -248,6 +266,12 @@ def mon_C04(case, obs):
                 # the job's own timeout is not observable here; use the largest possible
                 if o['now'] - j['lost'][0] > 10 and o['now'] - j['lost'][0] > lt:
                     out.append(('C04:loss-not-reported-in-time', 'job %d marker %s still unresolved at %s' % (k, j['lost'], o['now'])))
+            if j['ready'] and j['val'] and j['val'][0] == 'lost' and k not in was_ready and j['lost'] \
+                    and k < len(params) and o['now'] - j['lost'][0] <= params[k][2]:
+                out.append(('C04:loss-reported-before-timeout', 'job %d lost at %s, detected %s, timeout %s'
+                            % (k, o['now'], j['lost'][0], params[k][2])))
+            if j['ready']:
+                was_ready.add(k)
             if j['ready'] and j['val'] and j['val'][0] == 'lost':
                 if not j['lost']:
                     out.append(('C04:lost-without-marker', 'job %d' % k))
@@ -348,6 +372,11 @@ def mon_C10(case, obs):
     out = []
     for n, (e, o) in enumerate(zip(case['events'], obs)):
         v, b = o['sem']
+        if e[0] == 'ready' and n and e[1] < len(obs[n - 1]['jobs']) and obs[n - 1]['jobs'][e[1]]['ready'] \
+                and obs[n - 1]['jobs'][e[1]]['kind'] == 'apply' and v > obs[n - 1]['sem'][0]:
+            out.append(('C10:slot-released-for-resolved-job',
+                        'a result for the already resolved job %d released a slot (%d -> %d) at event %d'
+                        % (e[1], obs[n - 1]['sem'][0], v, n)))
         if v < 0 or v > b:
             out.append(('C10:semaphore-out-of-bounds', 'value %d bound %d after event %d %s' % (v, b, n, e)))
         if b != o['nprocs']:
@@ -358,14 +387,120 @@ def mon_C10(case, obs):
 def mon_C11(case, obs):
     out = []
     mr = case['cfg'].get('max_restarts')
+    clean_exit = {}
+    signalled = set()
     for n, (e, o) in enumerate(zip(case['events'], obs)):
         if mr and (o['R'] < 0 or o['R'] > mr):
             out.append(('C11:counter-out-of-budget', 'R=%d max_restarts=%d after %s' % (o['R'], mr, e)))
+        for p, sg in o['sigs']:
+            signalled.add(p)
+        if e[0] == 'exit' and e[1] not in signalled:
+            clean_exit.setdefault(e[1], e[2] in (0, 155))
+        if e[0] == 'tick' and n and not o['exc']:
+            before = {w[0] for w in obs[n - 1]['workers']}
+            after = {w[0] for w in o['workers']}
+            gone = before - after
+            started = after - before
+            if gone and all(clean_exit.get(p) is True for p in gone) and len(started) <= len(gone) \
+                    and o['R'] > obs[n - 1]['R']:
+                out.append(('C11:clean-exit-consumed-budget', 'workers %s exited clean/recycle, R %d -> %d at event %d'
+                            % (sorted(gone), obs[n - 1]['R'], o['R'], n)))
     return out
 
 
-MONITORS = dict(C01=[mon_C01], C04=[mon_C04], C05=[mon_C05, mon_C05_jobs], C06=[mon_C06],
-                C09=[mon_C09], C10=[mon_C10], C11=[mon_C11])
+def part_books(case, obs):
+    """per multi-part job: which pid acknowledged each part, which parts have a handled result"""
+    acked, done = {}, {}
+    for e, o in zip(case['events'], obs):
+        if e[0] == 'ack' and e[2] is not None:
+            acked.setdefault(e[1], {})[e[2]] = e[3]
+        if e[0] == 'ready' and e[2] is not None:
+            done.setdefault(e[1], set()).add(e[2])
+        yield acked, done
+
+
+def mon_known_C04(case, obs):
+    """recorded defects of the pinned tree around worker loss (see known_findings.json)"""
+    out = []
+    had_marker = set()
+    for n, ((e, o), (acked, done)) in enumerate(zip(zip(case['events'], obs), part_books(case, obs))):
+        live = {w[0] for w in o['workers']}
+        for k, j in enumerate(o['jobs']):
+            # D4: ordered imap stores the loss under the key None: the consumer is never told
+            if j['kind'] == 'imap' and 'None' in j['extra'][3]:
+                out.append(('C04:imap-loss-not-delivered', 'imap job %d: the failure sits in _unsorted[None] (event %d)' % (k, n)))
+            # D3: a multi-part job is marked lost although the exited owner had finished its parts
+            if j['kind'] in ('map', 'imap', 'imapu') and j['lost'] and k not in had_marker:
+                had_marker.add(k)
+                gone = [p for p in j['wpids'] if p not in live]
+                unfinished = [i for i, p in acked.get(k, {}).items() if p in gone and i not in done.get(k, set())]
+                if gone and not unfinished:
+                    out.append(('C04:spurious-loss-finished-parts',
+                                '%s job %d marked lost at event %d although workers %s had finished every part they accepted'
+                                % (j['kind'], k, n, gone)))
+            # D11: the ACK was handled after its sender had been reaped: never marked
+            if e[0] == 'tick' and not o['exc'] and j['kind'] == 'apply' and j['incache'] and not j['ready'] \
+                    and j['acc'] and j['wpids'] and j['wpids'][0] not in live and not j['lost']:
+                out.append(('C04:owner-gone-but-no-marker',
+                            'job %d is owned by pid %d which left the pool, yet the supervision pass at event %d set no marker'
+                            % (k, j['wpids'][0], n)))
+    return out
+
+
+def mon_known_C05(case, obs):
+    out = []
+    params = job_params(case, obs)
+    for n, (e, o) in enumerate(zip(case['events'], obs)):
+        if e[0] == 'scan' and o['ret'] == 'NoScanner':
+            for k, j in _apply_jobs(o):
+                t = j['extra'][0]
+                if k < len(params) and params[k][1] and t and not j['ready'] and o['now'] >= t + params[k][1]:
+                    out.append(('C05:limit-without-scanner',
+                                'job %d has hard limit %s (accepted %s, now %s) but the pool has no timeout scanner'
+                                % (k, params[k][1], t, o['now'])))
+    return out
+
+
+def mon_known_C10(case, obs):
+    """D13: more slot-holding jobs in flight than slots, without any worker exit"""
+    out = []
+    holders = set()
+    k = 0
+    disturbed = False
+    for n, (e, o) in enumerate(zip(case['events'], obs)):
+        if e[0] in ('exit', 'terminate_job', 'shrink', 'death', 'close', 'discard') or any(s[1] in (15, 9) for s in o['sigs']):
+            disturbed = True
+        if e[0] in ('apply', 'map', 'imap', 'imapu') and o['ret'] is None and not o['exc']:
+            if e[0] == 'apply':
+                a = list(e[1:]) + [None] * 4
+                wait = case['cfg'].get('putlocks', False) if a[3] is None else a[3]
+                if wait:
+                    holders.add(k)
+            k += 1
+        inflight = [h for h in holders if h < len(o['jobs']) and not o['jobs'][h]['ready']]
+        if not disturbed and len(inflight) > o['sem'][1]:
+            out.append(('C10:more-slot-holders-than-slots',
+                        '%d slot-holding jobs in flight on %d slots after event %d %s, no worker exit so far'
+                        % (len(inflight), o['sem'][1], n, e)))
+            break
+    return out
+
+
+def mon_known_C09(case, obs):
+    """D19: supervision stops at close(): recycled workers are not replaced while jobs are pending"""
+    out = []
+    for n, (e, o) in enumerate(zip(case['events'], obs)):
+        if e[0] == 'tick' and not o['exc'] and o['state'] == 1 and len(o['workers']) < o['nprocs'] \
+                and any(j['incache'] and not j['ready'] for j in o['jobs']):
+            out.append(('C09:no-replacement-after-close',
+                        'pool closed with unresolved jobs: %d workers for size %d after the pass at event %d'
+                        % (len(o['workers']), o['nprocs'], n)))
+            break
+    return out
+
+
+MONITORS = dict(C01=[mon_C01], C04=[mon_C04, mon_known_C04], C05=[mon_C05, mon_C05_jobs, mon_known_C05], C06=[mon_C06],
+                C09=[mon_C09, mon_known_C09], C10=[mon_C10, mon_known_C10], C11=[mon_C11])
 
 
 def pool_check(res, pid, n, focus=None, cfg=None, length=(5, 45), extra_cases=()):
